@@ -412,6 +412,14 @@ def check_laws(run):
                 elif name.startswith("E"):
                     hi = par.max if math.isfinite(par.max) else 1e5
                     par.set(value=min(10 ** run.rng.uniform(1, 4.5), hi))
+            enames_ = [k_ for k_ in names if k_.startswith("E")]
+            if len(enames_) >= 2 and i % 5 == 0:
+                # several moduli: small and nearly equal values are in
+                # bounds too (the scaling law holds at every magnitude)
+                pair = [(1.2, 0.5), (0.9, 0.1), (500.0, 499.5),
+                        (0.3, 0.30001), (40.0, 39.2)][(i // 5) % 5]
+                for en, v in zip(enames_, pair):
+                    p[en].set(value=v)
             R = p["R"].value if "R" in p else 1e-5
             depth_max = min(R, 3e-6)
             cp = p["contact_point"].value
@@ -458,7 +466,9 @@ def check_laws(run):
                 fail("adding to the baseline does not add to the force",
                      "C13_baseline_add")
             p2["baseline"].set(value=bl)
-            lam = 2.5
+            lam = 2.5 if len(enames_) < 2 or i % 5 else [1000.0, 1e4, 2.0,
+                                                         300.0, 0.5][
+                (i // 5) % 5]
             enames = [k_ for k_ in names if k_.startswith("E")]
             okb = True
             for en in enames:
@@ -517,8 +527,10 @@ def check(run):
     run.assumptions = [
         "user models' own bodies are arbitrary: the wrapper theorems hold for "
         "every length-preserving function",
-        "monotonicity for the sphere series (depth <= R) and the layered "
-        "model, and continuity for them, are explored numerically only",
+        "monotonicity / continuity of the sphere series are proved for "
+        "depths up to the tip radius only (beyond it the truncated "
+        "polynomial is not claimed); the layered model under its parameter "
+        "bounds (E_S > 0, t > 0, Poisson ratios in [0, 0.5])",
     ]
     check_wrapper(run)
     reload_cases(run)
